@@ -260,6 +260,83 @@ def run_cases(res: Result, rng: random.Random, n_msgs: int, hdr_grid: bool, fail
                 if old_code in (283, 272):
                     commands.all_commands[old_code] = saved
         commands.all_commands.pop(7777002, None)
+        # the three shapes a run-time command can have (one plain class; one class that sets flag defaults for newly built
+        # messages in __post_init__, as the library's request classes do; a base class with type_factory and request/answer
+        # subclasses with such defaults) x every flag octet x generic and typed decode: the decoded header carries the
+        # flags of the wire, the instance is of the registered class, re-encoding reproduces the input
+        from diameter.message import MessageHeader as _MH
+
+        class XVPlain(DefinedMessage):
+            code = 7777011
+            name = "XV-Plain"
+
+            def __post_init__(self):
+                self.header.command_code = self.code
+                super().__post_init__()
+
+        class XVDefaults(DefinedMessage):
+            code = 7777012
+            name = "XV-Defaults"
+
+            def __post_init__(self):
+                self.header.command_code = self.code
+                super().__post_init__()
+                self.header.is_request = True
+                self.header.is_proxyable = True
+
+        class XVSplit(DefinedMessage):
+            code = 7777013
+            name = "XV-Split"
+
+            def __post_init__(self):
+                self.header.command_code = self.code
+                super().__post_init__()
+
+            @classmethod
+            def type_factory(cls, header):
+                return XVSplitReq if header.is_request else XVSplitAns
+
+        class XVSplitReq(XVSplit):
+            def __post_init__(self):
+                super().__post_init__()
+                self.header.is_request = True
+                self.header.is_proxyable = True
+
+        class XVSplitAns(XVSplit):
+            def __post_init__(self):
+                super().__post_init__()
+                self.header.is_request = False
+                self.header.is_proxyable = True
+        shapes = [(XVPlain, lambda fl, plain: XVPlain), (XVDefaults, lambda fl, plain: XVDefaults),
+                  (XVSplit, lambda fl, plain: XVSplit if plain else (XVSplitReq if fl & 0x80 else XVSplitAns))]
+        body = gen.rfc_wire(263, 0, 0x40, b"s;1") + gen.rfc_wire(1, 0, 0x40, b"u")
+        try:
+            for cls, want_cls in shapes:
+                commands.register(cls)
+            for cls, want_cls in shapes:
+                for fl in range(256):
+                    wire = gen.rfc_header(1, 20 + len(body), fl, cls.code, 7, 0xfffffffe, 3) + body
+                    for plain in (False, True):
+                        res.count("register-shape")
+                        m = Message.from_bytes(wire, plain_msg=plain)
+                        bad = []
+                        if type(m) is not want_cls(fl, plain):
+                            bad.append(f"class {type(m).__name__}")
+                        if m.header.command_flags != fl:
+                            bad.append(f"flags {m.header.command_flags:#04x}")
+                        if m.as_bytes() != wire:
+                            bad.append("re-encoding differs")
+                        if bad:
+                            fails.append({"what": "a command registered at run time: decoded header flags / class / re-encoding "
+                                                  "differ from the wire", "line": f"MSGDEC {wire.hex()} {int(plain)}",
+                                          "real": f"{cls.__name__} flags={fl:#04x} plain={plain}: " + ", ".join(bad)})
+                            break
+                    else:
+                        continue
+                    break
+        finally:
+            for cls, _w in shapes:
+                commands.all_commands.pop(cls.code, None)
     except Exception as ex:  # noqa
         fails.append({"what": f"commands.register raised {type(ex).__name__}: {ex}", "line": "register()"})
     # the flag properties of the header: each reads and writes exactly its bit (R 0x80, P 0x40, E 0x20, T 0x10), for every octet
@@ -324,7 +401,7 @@ def racing_encoders(res: Result) -> list:
     res.cases += doc["schedules"]
     res.extra["racing_encoder_schedules"] = doc["schedules"]
     res.rule += ("; two threads inside Message.as_bytes for different messages under every sampled single-preemption schedule: "
-                 "each is encoded as when encoded alone")
+                 "each is encoded as when encoded alone; likewise two threads in find_avps on one freshly decoded message")
     return doc["fails"]
 
 
